@@ -810,7 +810,15 @@ func init() {
 			fn := c.MustFn("(*Segment).copyStoredDocs")
 			key := fnName(fn) + "/in-block-cursor"
 			found := false
-			for _, h := range fn.Blocks {
+			// the per-record loop is in copyStoredDocs or in a helper it hands each block to
+			var blocks []*ssa.BasicBlock
+			blocks = append(blocks, fn.Blocks...)
+			for _, sc := range staticCallees(fn) {
+				if c.inRoot(sc) && sc.Blocks != nil {
+					blocks = append(blocks, sc.Blocks...)
+				}
+			}
+			for _, h := range blocks {
 				if !isLoopHeader(h) {
 					continue
 				}
@@ -822,7 +830,7 @@ func init() {
 				if !ok || bin.Op != token.LSS {
 					continue
 				}
-				if _, name, ok := lenOrCapOf(bin.Y); !ok || name != "len" {
+				if x, name, ok := lenOrCapOf(bin.Y); !ok || name != "len" || !isByteSlice(x.Type()) {
 					continue
 				}
 				phi, ok := bin.X.(*ssa.Phi)
